@@ -114,7 +114,7 @@ impl Property for C10 {
         "C10"
     }
     fn rule(&self) -> String {
-        "cases: (a) call histories as for C05 with keys drawn from a pool containing edge scalars (1, 2, 3, n-1, n-2, (n-1)/2), keys mined for a leading-zero x or y coordinate, odd and even y, and random secrets, for all eleven key families; (b) independently signed wire records decoded under all four key types; (c) every pool key x every family once. Oracle: node_id() == own keccak256 of the independently decompressed 64-byte x||y of the public key stored in the record's pairs (keccak256 of the 32 bytes for ed25519) == NodeId::from(public_key()) == NodeId::from(&record); unchanged by updates made with the same key; equal for records sharing a key, different for different keys. Non-trivial: a record whose key has a leading-zero coordinate or odd y, a decoded (not built) record, or a second record sharing a key. Distinct by hash of the case.".into()
+        "cases: (a) call histories as for C05 with keys drawn from a pool containing edge scalars (1, 2, 3, n-1, n-2, (n-1)/2), keys mined for a leading-zero x or y coordinate, odd and even y, and random secrets, for all twelve key families; (b) independently signed wire records decoded under all four key types; (c) every pool key x every family once. Oracle: node_id() == own keccak256 of the independently decompressed 64-byte x||y of the public key stored in the record's pairs (keccak256 of the 32 bytes for ed25519) == NodeId::from(public_key()) == NodeId::from(&record); unchanged by updates made with the same key; equal for records sharing a key, different for different keys. Non-trivial: a record whose key has a leading-zero coordinate or odd y, a decoded (not built) record, or a second record sharing a key. Distinct by hash of the case.".into()
     }
     fn assumptions(&self) -> Vec<String> {
         vec!["decompression by libsecp256k1 cross-checked with k256; keccak hand-written and self-checked".into()]
